@@ -236,7 +236,9 @@ func (w *World) Check(when string) {
 		return
 	}
 	var buf bytes.Buffer
-	if w.guard("WriteLogs", func() { w.ML.WriteLogs(&buf, logging.IncludeFields) }) {
+	// all four detail levels (message only ... fields ... stack traces): the retained ids and their order are the same
+	level := n % 4
+	if w.guard("WriteLogs", func() { w.ML.WriteLogs(&buf, level) }) {
 		return
 	}
 	var ids []string
